@@ -15,6 +15,8 @@
    post <n> {<id> <prio> <link> <field> <value>}*n                       -> <changed 0|1> | user,internal,setting ; ...
    pre <first 0|1> <simTime> <n> {<id> <prio> <link> <field> <value> <back>}*n   -> <simTime'> <changed> | links...
    rows <tank> <n> {<time> <head> <demand>}*n                            -> ok
+   rowsl <tank> <n> {<time> <head> <demand> <leak> <linkNet>}*n          -> ok
+   integrall <tank> <rtol> <atol> <qtol>                                 -> ok | bad <i>     (identity with the leak explicit)
    integral <tank> <rtol> <atol>                                         -> ok | bad <i>
    limits <tank> <secs> <atol>                                           -> ok | bad <i>
    limflow <tank> <qtol>                                                 -> ok | bad <i>
@@ -63,6 +65,7 @@ structure DState where
   links : Links := []
   tracked : List (Nat × Watch) := []
   rows : List (Nat × List Row) := []
+  rowsl : List (Nat × List RowL) := []
 
 def DState.tank? (d : DState) (id : Nat) : Option Tank := (d.tanks.find? (·.1 == id)).map (·.2)
 def DState.rows? (d : DState) (id : Nat) : List Row := ((d.rows.find? (·.1 == id)).map (·.2)).getD []
@@ -121,6 +124,14 @@ def parseRows : Nat → List String → Option (List Row)
     let t ← parseRat t; let h ← parseRat h; let q ← parseRat q
     let r ← parseRows n rest
     some (⟨t, h, q⟩ :: r)
+  | _, _ => none
+
+def parseRowsL : Nat → List String → Option (List RowL)
+  | 0, [] => some []
+  | n + 1, t :: h :: q :: l :: ln :: rest => do
+    let t ← parseRat t; let h ← parseRat h; let q ← parseRat q; let l ← parseRat l; let ln ← parseRat ln
+    let r ← parseRowsL n rest
+    some (⟨t, h, q, l, ln⟩ :: r)
   | _, _ => none
 
 def showLinks (ls : Links) : String :=
@@ -275,6 +286,17 @@ def handle (d : DState) (line : String) : DState × String :=
     match t.toNat?, n.toNat? >>= (parseRows · rest) with
     | some t, some rs => ({ d with rows := (t, rs) :: d.rows.filter (·.1 != t) }, "ok")
     | _, _ => (d, "bad-op")
+  | "rowsl" :: t :: n :: rest =>
+    match t.toNat?, n.toNat? >>= (parseRowsL · rest) with
+    | some t, some rs => ({ d with rowsl := (t, rs) :: d.rowsl.filter (·.1 != t) }, "ok")
+    | _, _ => (d, "bad-op")
+  | ["integrall", t, rtol, atol, qtol] =>
+    match t.toNat?, parseRat rtol, parseRat atol, parseRat qtol with
+    | some tid, some rtol, some atol, some qtol =>
+      match d.tank? tid with
+      | some t => (d, showBad (tankIntegralLeakFirstBad d.pi t rtol atol qtol (((d.rowsl.find? (·.1 == tid)).map (·.2)).getD []) 0))
+      | none => (d, "bad-op")
+    | _, _, _, _ => (d, "bad-op")
   | ["integral", t, rtol, atol] =>
     match t.toNat?, parseRat rtol, parseRat atol with
     | some tid, some rtol, some atol =>
